@@ -179,6 +179,12 @@ impl<'tcx> Cx<'tcx> {
             let hi = sm.lookup_char_pos(body.span.hi());
             let _ = write!(s, ",\"line_end\":{}", hi.line);
         }
+        if matches!(tcx.def_kind(did), DefKind::Fn | DefKind::AssocFn) {
+            // names of the generic parameters in the order call sites list their arguments (parent generics first)
+            let g = tcx.generics_of(did);
+            let names: Vec<String> = (0..g.count()).map(|i| js(&g.param_at(i, tcx).name.to_string())).collect();
+            let _ = write!(s, ",\"gparams\":[{}]", names.join(","));
+        }
         if let Some(p) = tcx.opt_parent(did) { let _ = write!(s, ",\"parent\":{}", js(&tcx.def_path_str(p))); }
         if let Some(imp) = tcx.impl_of_assoc(did) {
             let _ = write!(s, ",\"impl_self\":{}", js(&tcx.type_of(imp).instantiate_identity().skip_norm_wip().to_string()));
